@@ -804,16 +804,22 @@ Qed.
 
 (* ---------- the executable predicate holds on every model trace ---------- *)
 
+Definition hl_wf (v : Z) : bool :=
+  (0 <=? v) && ((v <=? 100) || ((1000 <=? v) && (v <=? 3000)) || (4000 <=? v)).
+
 Definition op_wf (op : word) : bool :=
   match op with
-  | [1] | [2; _] | [3; _; _] | [4; _] | [5; _] | [6; _] | [7] | [8; _] => true
+  | [1] | [2; _] | [2; _; _] | [3; _; _] | [4; _] | [5; _] | [7] | [8; _] | [10] | [11; _] | [12; _] => true
+  | [6; w] => 0 <=? w
+  | [9; v] => hl_wf v
   | _ => false
   end.
 
 Inductive shape : word -> Prop :=
-| sh1 : shape [1] | sh2 v : shape [2; v] | sh3 k h : shape [3; k; h]
+| sh1 : shape [1] | sh2 v : shape [2; v] | sh2' u v : shape [2; u; v] | sh3 k h : shape [3; k; h]
 | sh4 k : shape [4; k] | sh5 k : shape [5; k] | sh6 w : shape [6; w]
-| sh7 : shape [7] | sh8 k : shape [8; k].
+| sh7 : shape [7] | sh8 k : shape [8; k] | sh9 v : shape [9; v] | sh10 : shape [10]
+| sh11 k : shape [11; k] | sh12 k : shape [12; k].
 
 Lemma op_wf_shape op : op_wf op = true -> shape op.
 Proof.
@@ -823,7 +829,7 @@ Proof.
     destruct l as [|x1 [|x2 [|x3 l]]]; try discriminate H; constructor.
 Qed.
 
-Definition mx_of (op : word) (d : Z) : Z := match op with [2; v] => v | _ => d end.
+Definition mx_of (op : word) (d : Z) : Z := match op with [2; v] => v | [2; _; v] => v | _ => d end.
 Definition dd_of (t : trk) (op : word) : bool := match op with [5; _] => t_nh t =? 0 | _ => false end.
 
 Lemma take_n_app n : forall (l r : list Z), length l = n -> take_n n (l ++ r) = Some (l, r).
@@ -844,10 +850,12 @@ Definition the_clauses (t : trk) (mx' : Z) (dd : bool) (q no nb nh : Z) (new : l
    (1, q, dd || (q + no =? mx'));
    (2, no, dd || (n <=? 0) || (no <=? mx'));
    (4, nb - nh, dd || (nb - nh <=? 0) || (q <=? 0));
-   (5, nb, negb dd || ((nb =? 0) && (n =? 0)))].
+   (5, nb, negb dd || ((nb =? 0) && (n =? 0)));
+   (6, no, no =? no);
+   (7, 0, 0 =? 0)].
 
-Lemma cl_op_eq t op q w no nb nh c tm new :
-  cl_op t op ([q; w; no; nb; nh; c; tm; Z.of_nat (length new)] ++ new ++ new) =
+Lemma cl_op_eq t op q w no nb nh c tm hd nw new :
+  cl_op t op ([q; w; no; nb; nh; c; tm; hd; no; nw; 0; Z.of_nat (length new)] ++ new ++ new) =
   (mkt (mx_of op (t_max t)) (last new (t_last t)) nh (dd_of t op),
    the_clauses t (mx_of op (t_max t)) (dd_of t op) q no nb nh new).
 Proof.
@@ -1008,31 +1016,57 @@ Proof.
         rewrite B4, DA1 in Eadm. rewrite <- (app_nil_r (adm s)) in Eadm at 1.
         apply app_inv_head in Eadm. congruence. }
       rewrite H3. reflexivity.
+    + apply Z.eqb_refl.
 Qed.
 
-Lemma op_step_ok s held t tid op : Sim s held t -> dead s = false -> op_wf op = true ->
-  exists s' held' o, op_step s held tid op = Some (s', held', o) /\ Sim s' held' (fst (cl_op t op o)) /\
+(* operations made of stream closes and context leaves only *)
+Definition quiet (a : act) : Prop := match a with AClose _ | ALeave _ => True | _ => False end.
+
+Lemma quiet_exec : forall l s, Forall quiet l -> Inv s -> dead s = false -> all_blocked s ->
+  let s1 := exec s l in
+  Inv s1 /\ adm s1 = adm s /\ maxc s1 = maxc s /\ dead s1 = false /\ all_blocked s1.
+Proof.
+  induction l as [|a l IH]; intros s Hf H Hd AB; [cbn; tauto|].
+  inversion Hf as [|? ? Ha Hl]; subst. rewrite exec_cons.
+  destruct (one_act s a H Hd) as (I1 & _ & _ & M1 & D1 & _). cbn zeta in *.
+  assert (A1 : adm (fst (astep s a)) = adm s).
+  { destruct (step_adm s a) as [(E & _)|(_ & _ & _ & _ & _ & _ & [(t & ->)|(t & ->)])];
+      [exact E|destruct Ha|destruct Ha]. }
+  assert (AB1 : all_blocked (fst (astep s a))).
+  { intros t0 p Hi.
+    assert (N1 : forall t1, a <> ARecv t1) by (intros t1 ->; destruct Ha).
+    assert (N2 : forall t1, a <> ARetry t1) by (intros t1 ->; destruct Ha).
+    destruct (opact_thr s a N1 N2 _ Hi) as [(g & E)|I]; [cbn in E; eauto|now apply (AB t0 p)]. }
+  assert (M1' : maxc (fst (astep s a)) = maxc s) by (destruct a; try destruct Ha; exact M1).
+  assert (D1' : dead (fst (astep s a)) = false) by (destruct a; try destruct Ha; exact D1).
+  destruct (IH _ Hl I1 D1' AB1) as (I2 & A2 & M2 & D2 & AB2). cbn zeta in *.
+  split; [exact I2|]. split; [congruence|]. split; [congruence|]. split; [exact D2|exact AB2].
+Qed.
+
+Lemma op_step_ok s held e t tid op : Sim s held t -> dead s = false -> op_wf op = true ->
+  exists s' held' e' o, op_step s held e tid op = Some (s', held', e', o) /\ Sim s' held' (fst (cl_op t op o)) /\
                forallb (fun c : Z * Z * bool => snd c) (snd (cl_op t op o)) = true.
 Proof.
   intros S Hd Hw. pose proof S as (H & Hq & Hb & Tm & Tl & Tn & Td).
   pose proof (sim_all_blocked s held t S Hd) as AB.
-  assert (Hnone : forall held', mx_of op (t_max t) = maxc s -> dd_of t op = false ->
-            op_act s held tid op = Some ([], held') ->
-            exists s' held'' o, op_step s held tid op = Some (s', held'', o) /\ Sim s' held'' (fst (cl_op t op o)) /\
+  assert (Hmany : forall acts held' e1 hd, op_act s held e tid op = Some (acts, held', e1, hd) ->
+            Forall quiet acts -> mx_of op (t_max t) = maxc s -> dd_of t op = false ->
+            exists s' held'' e' o, op_step s held e tid op = Some (s', held'', e', o) /\ Sim s' held'' (fst (cl_op t op o)) /\
                forallb (fun c : Z * Z * bool => snd c) (snd (cl_op t op o)) = true).
-  { intros held' Em Ed Ea. unfold op_step. rewrite Ea. eexists _, _, _. split; [reflexivity|].
-    rewrite cl_op_eq. cbn [fst snd]. change (exec s []) with s.
-    apply (finish_step s held t s held' (mx_of op (t_max t)) (dd_of t op) S H AB); try congruence.
-    - exists []. now rewrite app_nil_r.
-    - now left. }
-  assert (Hone : forall a held', op_act s held tid op = Some ([a], held') ->
+  { intros acts held' e1 hd Ea Hf Em Ed. unfold op_step. rewrite Ea. eexists _, _, _, _. split; [reflexivity|].
+    rewrite cl_op_eq. cbn [fst snd].
+    destruct (quiet_exec acts s Hf H Hd AB) as (I1 & A1 & M1 & D1 & AB1). cbn zeta in *.
+    apply (finish_step s held t (exec s acts) held' (mx_of op (t_max t)) (dd_of t op) S I1 AB1); try congruence.
+    - exists []. rewrite app_nil_r. exact A1.
+    - left. exact A1. }
+  assert (Hone : forall a held' e1 hd, op_act s held e tid op = Some ([a], held', e1, hd) ->
             (forall t0, a <> ARecv t0) -> (forall t0, a <> ARetry t0) ->
             mx_of op (t_max t) = match a with ASettings v => v | _ => maxc s end ->
             dd_of t op = match a with ADead _ => true | _ => false end ->
             (dd_of t op = true -> held_in s held' = []) ->
-            exists s' held'' o, op_step s held tid op = Some (s', held'', o) /\ Sim s' held'' (fst (cl_op t op o)) /\
+            exists s' held'' e' o, op_step s held e tid op = Some (s', held'', e', o) /\ Sim s' held'' (fst (cl_op t op o)) /\
                forallb (fun c : Z * Z * bool => snd c) (snd (cl_op t op o)) = true).
-  { intros a held' Ea N1 N2 Em Ed Eh. unfold op_step. rewrite Ea. eexists _, _, _. split; [reflexivity|].
+  { intros a held' e1 hd Ea N1 N2 Em Ed Eh. unfold op_step. rewrite Ea. eexists _, _, _, _. split; [reflexivity|].
     rewrite cl_op_eq. cbn [fst snd]. change (exec s [a]) with (fst (astep s a)).
     destruct (one_act s a H Hd) as (I1 & A1 & Q1 & M1 & D1 & DA). cbn zeta in *.
     assert (AB1 : all_blocked (fst (astep s a))).
@@ -1042,46 +1076,72 @@ Proof.
     (* ADead does not touch the thread table *)
     rewrite Ed in E. destruct a; try discriminate E. specialize (Eh ltac:(congruence)).
     unfold held_in in *. unfold astep. rewrite Hd. cbn. exact Eh. }
-  apply op_wf_shape in Hw. destruct Hw as [|v|k h|k|k|w| |k].
-  - apply (Hone (AFirst tid) held); try reflexivity; try discriminate. cbn; congruence.
-  - apply (Hone (ASettings v) held); try reflexivity; try discriminate.
-  - assert (Ea : op_act s held tid [3; k; h] =
-                  match nth_mod k (open s) with Some id => Some ([AClose id], held) | None => Some ([], held) end) by reflexivity.
+  assert (Hcall : forall big hold, op_act s held e tid op = new_call held e tid big hold ->
+            mx_of op (t_max t) = t_max t -> dd_of t op = false ->
+            exists s' held'' e' o, op_step s held e tid op = Some (s', held'', e', o) /\ Sim s' held'' (fst (cl_op t op o)) /\
+               forallb (fun c : Z * Z * bool => snd c) (snd (cl_op t op o)) = true).
+  { intros big hold Ea Em Ed. unfold new_call in Ea. destruct (rej (hl e) big).
+    - apply (Hmany _ _ _ _ Ea); [constructor|congruence|assumption].
+    - apply (Hone _ _ _ _ Ea); try discriminate; try congruence. }
+  apply op_wf_shape in Hw. destruct Hw as [|v|u v|k h|k|k|w| |k|v| |k|k].
+  - apply (Hcall false false); reflexivity.
+  - apply (Hone (ASettings v) held e 0); try reflexivity; try discriminate.
+  - apply (Hone (ASettings v) held e 0); try reflexivity; try discriminate.
+  - assert (Ea : op_act s held e tid [3; k; h] =
+                  match nth_mod k (open s) with Some id => Some ([AClose id], held, e, 0) | None => Some ([], held, e, 0) end) by reflexivity.
     destruct (nth_mod k (open s)) as [id|].
-    + apply (Hone (AClose id) held); try exact Ea; try discriminate; try reflexivity. cbn; congruence.
-    + apply (Hnone held); [cbn; congruence|reflexivity|exact Ea].
-  - assert (Ea : op_act s held tid [4; k] =
-                  match nth_mod k (parked s held) with Some t0 => Some ([ALeave t0], held) | None => Some ([], held) end) by reflexivity.
+    + apply (Hone (AClose id) held e 0); try exact Ea; try discriminate; try reflexivity. cbn; congruence.
+    + apply (Hmany [] held e 0); [exact Ea|constructor|cbn; congruence|reflexivity].
+  - assert (Ea : op_act s held e tid [4; k] =
+                  match nth_mod k (parked s held) with Some t0 => Some ([ALeave t0], held, e, 0) | None => Some ([], held, e, 0) end) by reflexivity.
     destruct (nth_mod k (parked s held)) as [t0|].
-    + apply (Hone (ALeave t0) held); try exact Ea; try discriminate; try reflexivity. cbn; congruence.
-    + apply (Hnone held); [cbn; congruence|reflexivity|exact Ea].
-  - assert (Ea : op_act s held tid [5; k] =
-                  match held_in s held with [] => Some ([ADead k], held) | _ => Some ([], []) end) by reflexivity.
+    + apply (Hone (ALeave t0) held e 0); try exact Ea; try discriminate; try reflexivity. cbn; congruence.
+    + apply (Hmany [] held e 0); [exact Ea|constructor|cbn; congruence|reflexivity].
+  - assert (Ea : op_act s held e tid [5; k] =
+                  match held_in s held with [] => Some ([ADead k], held, e, 0) | _ => Some ([], [], e, 0) end) by reflexivity.
     assert (Edd : dd_of t [5; k] = match held_in s held with [] => true | _ => false end).
     { cbn. rewrite Tn. destruct (held_in s held); reflexivity. }
     destruct (held_in s held) as [|h0 hr] eqn:Eh.
-    + apply (Hone (ADead k) held); try exact Ea; try discriminate; try exact Edd. cbn; congruence. intros _. exact Eh.
-    + apply (Hnone []); [cbn; congruence|exact Edd|exact Ea].
-  - apply (Hnone held); [cbn; congruence|reflexivity|reflexivity].
-  - apply (Hone (AFirst tid) (tid :: held)); try reflexivity; try discriminate. cbn; congruence.
-  - assert (Ea : op_act s held tid [8; k] =
-                  match nth_mod k (held_in s held) with Some t0 => Some ([], remove_z t0 held) | None => Some ([], held) end) by reflexivity.
+    + apply (Hone (ADead k) held e 0); try exact Ea; try discriminate; try exact Edd. cbn; congruence. intros _. exact Eh.
+    + apply (Hmany [] [] e 0); [exact Ea|constructor|cbn; congruence|exact Edd].
+  - eapply Hmany; [reflexivity|constructor|cbn; congruence|reflexivity].
+  - apply (Hcall false true); reflexivity.
+  - assert (Ea : op_act s held e tid [8; k] =
+                  match nth_mod k (held_in s held) with Some t0 => Some ([], remove_z t0 held, e, 0) | None => Some ([], held, e, 0) end) by reflexivity.
     destruct (nth_mod k (held_in s held)) as [t0|].
-    + apply (Hnone (remove_z t0 held)); [cbn; congruence|reflexivity|exact Ea].
-    + apply (Hnone held); [cbn; congruence|reflexivity|exact Ea].
+    + apply (Hmany [] (remove_z t0 held) e 0); [exact Ea|constructor|cbn; congruence|reflexivity].
+    + apply (Hmany [] held e 0); [exact Ea|constructor|cbn; congruence|reflexivity].
+  - eapply Hmany; [reflexivity|constructor|cbn; congruence|reflexivity].
+  - apply (Hcall true false); reflexivity.
+  - assert (Ea : op_act s held e tid [11; k] =
+                  match nth_mod k (open s) with
+                  | Some id => Some (AClose id :: map ALeave (if (quota s + 1 >? 0) && (waiting s >? 0)
+                                                             then tl (parked s held) else parked s held), held, e, 0)
+                  | None => Some ([], held, e, 0) end) by reflexivity.
+    destruct (nth_mod k (open s)) as [id|].
+    + eapply Hmany; [exact Ea| |cbn; congruence|reflexivity].
+      constructor; [exact I|]. apply Forall_forall. intros a Ha. apply in_map_iff in Ha as (t0 & <- & _). exact I.
+    + apply (Hmany [] held e 0); [exact Ea|constructor|cbn; congruence|reflexivity].
+  - assert (Ea : op_act s held e tid [12; k] =
+                  match nth_mod k (open s) with
+                  | Some id => Some ([], held, (if mem id (wr e) then e else mke (hl e) (wr e ++ [id])), 0)
+                  | None => Some ([], held, e, 0) end) by reflexivity.
+    destruct (nth_mod k (open s)) as [id|].
+    + eapply Hmany; [exact Ea|constructor|cbn; congruence|reflexivity].
+    + apply (Hmany [] held e 0); [exact Ea|constructor|cbn; congruence|reflexivity].
 Qed.
 
-Lemma go_holds : forall ops s held t tid, Sim s held t -> forallb op_wf ops = true ->
-  exists obs, go s held tid ops = Some obs /\
+Lemma go_holds : forall ops s held e t tid, Sim s held t -> forallb op_wf ops = true ->
+  exists obs, go s held e tid ops = Some obs /\
               forallb (fun c : Z * Z * bool => snd c) (cl_go t ops obs) = true.
 Proof.
-  induction ops as [|op ops IH]; cbn [go cl_go forallb]; intros s held t tid S Hw.
+  induction ops as [|op ops IH]; cbn [go cl_go forallb]; intros s held e t tid S Hw.
   - exists []. split; reflexivity.
   - pose proof S as (_ & _ & _ & _ & _ & _ & Td). rewrite Td.
     destruct (dead s) eqn:Hd; [exists []; split; reflexivity|].
     apply andb_true_iff in Hw as [Hop Hr].
-    destruct (op_step_ok s held t tid op S Hd Hop) as (s' & held' & o & E & S' & F). rewrite E.
-    destruct (IH s' held' _ (tid + 1) S' Hr) as (obs & G & C). rewrite G.
+    destruct (op_step_ok s held e t tid op S Hd Hop) as (s' & held' & e' & o & E & S' & F). rewrite E.
+    destruct (IH s' held' e' _ (tid + 1) S' Hr) as (obs & G & C). rewrite G.
     exists (o :: obs). split; [reflexivity|].
     destruct (cl_op t op o) as [t' cs]. cbn [fst snd] in *. now rewrite forallb_app, F, C.
 Qed.
@@ -1094,11 +1154,32 @@ Proof.
 Qed.
 
 (* every state the case runner passes through is reached by atomic steps only *)
-Lemma op_step_reach s held tid op s' held' o : Inv s ->
-  op_step s held tid op = Some (s', held', o) -> exists acts, s' = exec s acts.
+Lemma op_step_reach s held e tid op s' held' e' o : Inv s ->
+  op_step s held e tid op = Some (s', held', e', o) -> exists acts, s' = exec s acts.
 Proof.
-  intros H. unfold op_step. destruct (op_act s held tid op) as [[acts h']|]; [|discriminate].
+  intros H. unfold op_step. destruct (op_act s held e tid op) as [[[[acts h'] e1] hd]|]; [|discriminate].
   intros E. inversion E; subst.
   destruct (settle_spec (fuel_of (exec s acts)) held' (exec s acts) (exec_inv acts s H)) as (l & _ & El & _).
   exists (acts ++ l). rewrite exec_app. exact El.
+Qed.
+
+(* ---------- the operations added for header-list-size, duplicate settings, simultaneous
+   close/cancel and blocked senders ---------- *)
+
+(* a call rejected by checkForHeaderListSize performs no step of the admission protocol *)
+Lemma rejected_call_no_step held e tid big hold : rej (hl e) big = true ->
+  new_call held e tid big hold = Some ([], held, e, 1).
+Proof. intros E. unfold new_call. now rewrite E. Qed.
+
+(* a SETTINGS frame that carries MAX_CONCURRENT_STREAMS twice acts as one that carries the last value *)
+Lemma duplicate_setting_last_wins s held e tid u v :
+  op_step s held e tid [2; u; v] = op_step s held e tid [2; v].
+Proof. reflexivity. Qed.
+
+(* after every operation a sender is blocked on write quota only on a stream that is still open *)
+Lemma senders_only_on_open_streams s held e tid op s' held' e' o :
+  op_step s held e tid op = Some (s', held', e', o) -> forall id, In id (wr e') -> In id (open s').
+Proof.
+  unfold op_step. destruct (op_act s held e tid op) as [[[[acts h'] e1] hd]|]; [|discriminate].
+  intros E. inversion E; subst. cbn [wr]. intros id Hi. apply filter_In in Hi as [_ Hm]. now apply mem_in.
 Qed.
